@@ -510,3 +510,31 @@ pub fn roundtrip_iterator_histories(ctx: &mut Ctx, spaces: Vec<CfgSpace>, per_sp
         });
     }
 }
+
+
+/// The header field readers of `utils::parser` against the reference header reader.
+pub fn header_field_readers_case(l: &mut Local, s: &[u8]) {
+    use crate::refmodel::read;
+    // the field readers a third-party parser is handed (utils::parser::parse_*): on any slice that holds the whole
+    // leading packet - exactly, or followed by more bytes, as when a datagram is walked by hand - they read that
+    // packet's header fields and the last byte of that packet
+    if let Some(h) = read::header(s) {
+        use rtcp_types::utils::parser as up;
+        if s.len() >= h.announced && s.len() >= 4 {
+            l.transitions += 1;
+            let r = guard::catch(|| (up::parse_version(s), up::parse_padding_bit(s), up::parse_count(s), up::parse_packet_type(s), up::parse_length(s), up::parse_padding(s), if s.len() >= 8 { Some(up::parse_ssrc(s)) } else { None }));
+            l.validated += 1;
+            match r {
+                Err(pi) => l.subject_panic("utils::parser::parse_*", &pi, || hex_short(s)),
+                Ok(got) => {
+                    let want = (h.version, h.p, h.count, h.pt, h.announced, if h.p { Some(s[h.announced - 1]) } else { None }, if s.len() >= 8 { Some(read::rd32(s, 4)) } else { None });
+                    if got != want {
+                        l.violation("header-field-reader-wrong", || hex_short(s), || format!("(version, P, count, type, length, padding, ssrc) read as {:?}, the leading packet has {:?}", got, want));
+                    } else {
+                        l.hit("header field readers ok");
+                    }
+                }
+            }
+        }
+    }
+}
